@@ -26,6 +26,11 @@ through the same route -- so an edit must be visible in its own tree and invisib
 whatever the copy ancestry and whatever was observed before.  The reference results are computed before
 the exploration starts (in other processes), so computing them never runs in between two events of a history.
 
+Bounds are per library and tier (LIBS[..]["bounds"]: history length, deviations = edit + obs events, edit events;
+several entries = one search each, the union is explored); the bound travels in the lib event so that the
+workers know it.  Quick gives the two-edit histories to `flat` (edits on the component-type class and the base
+class; thorough adds the top model) and one-edit histories with the in-place route only to `pkg`.
+
 An obs event is offered wherever another event can still follow it within the length bound (as the last event
 of a longest history it would only be followed by the final observations below, which are made anyway).
 
